@@ -150,7 +150,7 @@ def copies(idx, rep, rid):
     fh = idx.method("FileCacher", "get_original_headers")
     rep.analysed(fm, fh)
     cached = Obj("CACHED_LM")
-    it = Interp(idx, types={"self": "FileCacher"}, unknown_calls="error",
+    it = Interp(idx, types={"self": "FileCacher"}, unknown_calls="error", inline_all={"FileCacher"},
                 handlers={"CACHED_LM.copy": lambda i, c, r, a, k: Obj("COPY"), "copy.copy": lambda i, c, r, a, k: Obj("COPY"),
                           "copy.deepcopy": lambda i, c, r, a, k: Obj("COPY"), "self._find_lines_and_headers": lambda i, c, r, a, k: None})
     ps = it.run_all(fm, args={"filename": "f"}, store={"self.pathed_lines_and_headers": {"f": (cached, ["a", "b"])}})
@@ -158,7 +158,7 @@ def copies(idx, rep, rid):
     rep.check(okm, rid, f"{fm.file}::FileCacher.get_new_line_monitor returns a copy",
               f"returns {ps[0].result if ps else None}: every csvpath must get its own copy of the cached LineMonitor (a shared monitor carries line counters from one member into the next)", K.where(fm, fm.node))
     hdr = ["a", "b"]
-    it = Interp(idx, types={"self": "FileCacher"}, unknown_calls="error", handlers={"self._find_lines_and_headers": lambda i, c, r, a, k: None})
+    it = Interp(idx, types={"self": "FileCacher"}, unknown_calls="error", inline_all={"FileCacher"}, handlers={"self._find_lines_and_headers": lambda i, c, r, a, k: None})
     ps = it.run_all(fh, args={"filename": "f"}, store={"self.pathed_lines_and_headers": {"f": (cached, hdr)}})
     okh = len(ps) == 1 and ps[0].result[0] == "return" and ps[0].result[1] == ["a", "b"]
     if okh:
